@@ -293,6 +293,6 @@ func TestC18(t *testing.T) {
 	pbt.Main(t, pbt.Prop[Case]{
 		ID: "C18", Name: "statsd",
 		Rule: "rapid-generated reporter configurations (sample rate unset/1/(0,1], precision unset/1..12) and call lists (1..8 calls: counters, gauges, timers with hostile int64/float64 values and arbitrary byte-string names; value and duration histograms with 0..8 bounds whose every bucket pair from the reference tiling is reported); a recording Statter must see exactly one call per reporter call with the reference-rendered name, value and rate, and buckets that differ at the precision must not share a name. Non-trivial: a histogram with >=3 buckets (both open ends included). Distinct: FNV-64 of the case JSON.",
-		Gen:  gen, Run: run,
+		Gen:  gen, Run: run, HangAfter: 20 * time.Second,
 	})
 }
